@@ -154,7 +154,25 @@ fn seeds(ep: &str) -> Vec<Vec<u8>> {
                 {"op": "remove", "kind": "content", "rule_id": "p"}
             ]})),
         ],
-        "push_get_match" => vec![j(json!({"ruleset": event_seeds()[6]["content"]["global"], "event": event_seeds()[0], "display_name": "hi", "member_count": 2}))],
+        "push_get_match" => {
+            // bodies as the push properties describe them: punctuation, newlines, non-ASCII and
+            // repeated partial matches of the display name / keywords, with glob and plain patterns
+            let rules = json!({
+                "override": [{"actions": ["notify"], "default": true, "enabled": true, "rule_id": ".m.rule.contains_display_name", "conditions": [{"kind": "contains_display_name"}]}],
+                "content": [
+                    {"actions": ["notify"], "default": false, "enabled": true, "rule_id": "kw", "pattern": "cake"},
+                    {"actions": ["notify"], "default": false, "enabled": true, "rule_id": "glob", "pattern": "caf?s*"},
+                    {"actions": [], "default": true, "enabled": true, "rule_id": ".m.rule.contains_user_name", "pattern": "me"}
+                ],
+                "underride": [{"actions": ["notify"], "default": true, "enabled": true, "rule_id": ".m.rule.message", "conditions": [{"kind": "event_match", "key": "type", "pattern": "m.room.message"}, {"kind": "event_property_contains", "key": "content.m\\.mentions.user_ids", "value": "@me:x.y"}]}]
+            });
+            let msg = |body: &str| json!({"type": "m.room.message", "content": {"msgtype": "m.text", "body": body, "m.mentions": {"user_ids": [{"x": 1}, "@me:x.y"]}}, "event_id": "$e:x.y", "sender": "@a:x.y", "origin_server_ts": 1, "room_id": "!r:x.y"});
+            let mut v = vec![j(json!({"ruleset": event_seeds()[6]["content"]["global"], "event": event_seeds()[0], "display_name": "hi", "member_count": 2}))];
+            for (body, name) in [("kabob \u{2014} bob", "Bob"), ("pancake \u{1F95E} cake, cupcake\ncake", "\u{c9}lodie"), ("deux caf\u{e9}s ici; homework: me? some \u{e9}me", "me"), ("\u{c9}LODIE \u{e9}lodie  \u{e9}lodies", "\u{e9}lodie")] {
+                v.push(j(json!({"ruleset": rules, "event": msg(body), "display_name": name, "member_count": 3})));
+            }
+            v
+        }
         "push_flatten" => vec![j(event_seeds()[0].clone()), j(json!({"a": {"b.c": {"d\\e": [1, "x", null, {"o": 1}]}}, "": {"": 1}}))],
         "sig_verify_json" | "sig_verify_event" | "sig_sign" | "sig_hashes_redact" => vec![sig(&signed_obj), sig(&json!({"a": 1, "signatures": {"x.y": {"ed25519:1": "AAAA"}}}))],
         "sig_from_der" => vec![ring_doc, v1_doc],
@@ -537,7 +555,7 @@ fn oracle(c: &WireCase, cx: &mut CaseCtx) -> Result<(), String> {
         // once a non-termination has been confirmed in this run, later watchdog hits (shrinking
         // re-evaluates many candidates) are judged by a short single wait
         let hang_known = HANG_CONFIRMED.load(std::sync::atomic::Ordering::SeqCst);
-        let reply = sup.worker.call(&frame(ep, payload), Duration::from_secs(if hang_known { 2 } else { 10 }));
+        let reply = sup.worker.call(&frame(ep, payload), Duration::from_secs(if hang_known { 2 } else { 30 }));
         sup.calls += 1;
         let outcome = match reply {
             Reply::Ok(out) => String::from_utf8_lossy(&out).into_owned(),
